@@ -80,8 +80,8 @@ def toUpper (ext : UnicodeExt) (s : Bytes) : Bytes :=
 def toLower (ext : UnicodeExt) (s : Bytes) : Bytes :=
   if isAscii s then toLowerAscii s else ext.lower s
 
-/-- string literal to bytes (UTF-8) -/
-def lit (s : String) : Bytes := s.toUTF8.toList
+/-- ASCII string literal to bytes (used only on ASCII literals; reduces under `decide`/`rfl`) -/
+def lit (s : String) : Bytes := s.toList.map (fun c => c.toNat.toUInt8)
 
 theorem join_nil (sep : Bytes) : join sep [] = [] := rfl
 
